@@ -298,6 +298,10 @@ def check_case(case, col=None):
                 if obs[k] != tobs[k]:
                     raise Violation('parity:%s:%s' % (k, c['mode']), '%s: %s is %r, the blocking call on the same chunks %r leaves %r'
                                     % (where, k, obs[k], chunks, tobs[k]))
+            if outcome_to and c['eof'] and not c.get('late'):
+                # the writer closed its end within a few loop turns of the start of this call, far inside the timeout
+                raise Violation('eof-not-reported:' + c['mode'], '%s ended in TIMEOUT although the peer closed the stream during '
+                                'the call (chunks %r)' % (where, chunks))
             if outcome_to or outcome_eof:
                 # nothing that was written before the call ended may still sit undelivered in the pipe
                 got_all = (''.join if text_mode else b''.join)([ch for j in range(i + 1) for ch in log.chunks.get(j, [])])
